@@ -147,9 +147,16 @@ impl zip::unstable::stream::ZipStreamVisitor for MetaCollector {
 pub fn check_batch(names: &[String]) -> Result<(), String> {
     let entries: Vec<EntrySpec> = names
         .iter()
-        .map(|n| {
+        .enumerate()
+        .map(|(i, n)| {
             let mut e = EntrySpec::simple(n.as_bytes(), 0, Content::Bytes(vec![]));
-            e.utf8 = true;
+            // host system of the producer varies (Unix / MS-DOS / NTFS / other); ASCII names also go unflagged
+            e.utf8 = !(n.is_ascii() && i % 2 == 1);
+            e.made_by = ([3u16, 0, 10, 0, 3, 19][i % 6] << 8) | [20u16, 10, 45, 63][i % 4];
+            e.version_needed = [20u16, 10, 45][i % 3];
+            if e.made_by >> 8 == 0 {
+                e.external_attr = 0x20;
+            }
             e
         })
         .collect();
@@ -307,7 +314,7 @@ fn hostile(s: &str) -> bool {
 }
 
 pub fn run(ctx: &mut Ctx) {
-    ctx.rule("alphabet: every string over {a . / \\\\ NUL} up to length L (quick 8, thorough 10), 1000 names per generated archive, observed through ZipFile of the seekable reader, ZipFile of the streaming reader and ZipStreamFileMetadata; components: every sequence of <=C components from {a,b,.,..,empty} x separator x leading/trailing/doubled separator x NUL position; mixed_separators: every sequence of <=M components (quick 6, thorough 7) from {a,.,..,empty} with '/' or '\\\\' chosen independently at every joint x {none,'/','\\\\'} leading separator; random: Unicode/control names up to 64 KiB. Oracle: validity predicates on the result + string model. Non-trivial = name contains '..', a leading separator, NUL or backslash; all enumerated names are distinct by construction.");
+    ctx.rule("alphabet: every string over {a . / \\\\ NUL} up to length L (quick 8, thorough 10), 1000 names per generated archive, observed through ZipFile of the seekable reader, ZipFile of the streaming reader and ZipStreamFileMetadata; components: every sequence of <=C components from {a,b,.,..,empty} x separator x leading/trailing/doubled separator x NUL position; mixed_separators: every sequence of <=M components (quick 6, thorough 7) from {a,.,..,empty} with '/' or '\\\\' chosen independently at every joint x {none,'/','\\\\'} leading separator; special_names: drive-letter/UNC/device prefixes x short tails, and components longer than 255 bytes with multi-byte characters at every offset around 255; every batch mixes producer host systems (Unix, MS-DOS, NTFS, other) and flagged/unflagged ASCII names; random: Unicode/control names up to 64 KiB. Oracle: validity predicates on the result + string model. Non-trivial = name contains '..', a leading separator, NUL or backslash; all enumerated names are distinct by construction.");
     ctx.assume("host path semantics are Unix ('/' separates, '\\\\' is an ordinary character for enclosed_name and a separator for mangled_name)");
     const B: u64 = 1000;
     let l = ctx.q(8u32, 10);
@@ -364,6 +371,36 @@ pub fn run(ctx: &mut Ctx) {
         },
     );
     ctx.add_class("mixed_separators:names-checked", mtotal);
+    // drive-letter / UNC / device style prefixes (ordinary characters on Unix) in front of every short tail,
+    // and single components longer than NAME_MAX with multi-byte characters at every offset around 255
+    let mut special: Vec<String> = Vec::new();
+    for pre in ["C:", "c:", "Z:", "C:\\", "C:/", "//", "\\\\", "\\\\?\\C:\\", "CON", "a:b:"] {
+        for tail in ["", "..", ".", "../x", "..\\x", "..\\..\\x", "a", "a/..", "a/../..", "/a", "\\a", "\0..", "..\0", "./..", ".\\..", "../../a/b"] {
+            special.push(format!("{pre}{tail}"));
+            special.push(format!("d/{pre}{tail}"));
+        }
+    }
+    for pad in 240..=262usize {
+        for ch in ["é", "漢", "😀"] {
+            special.push(format!("{}{}{}", "p".repeat(pad), ch.repeat(6), "/t"));
+            special.push(format!("x/{}{}", "p".repeat(pad), ch.repeat(3)));
+            special.push(format!("{}{}/../../t", ch.repeat(2), "p".repeat(pad)));
+        }
+    }
+    let special = std::sync::Arc::new(special);
+    let stotal = special.len() as u64;
+    let sp = special.clone();
+    ctx.enumerate::<Range>(
+        "special_names",
+        (stotal + 99) / 100,
+        &|i| Range { first: i * 100, count: 100.min(stotal - i * 100) },
+        &move |r: &Range, info: &mut Info| {
+            let names: Vec<String> = (r.first..r.first + r.count).map(|k| sp[k as usize].clone()).collect();
+            info.nontrivial = true;
+            Verdict::from_result(check_batch(&names))
+        },
+    );
+    ctx.add_class("special_names:names-checked", stotal);
     ctx.exhaustive_all = true;
     let n = ctx.q(20000, 300000);
     ctx.explore::<Vec<String>>(
